@@ -14,6 +14,7 @@
   * `conjProx_eq` — the model of `conj_prox` is `v − lam·prox(v/lam, 1/lam)`.
 -/
 import Scico.Proofs.ProxCalcTree
+import Scico.Proofs.ProxCalc
 import Scico.Proofs.FuncEval
 
 namespace Scico.ProxCalc
@@ -21,15 +22,21 @@ open Scico Scico.FuncEval
 
 /-- the parameters with which the base functionals' `prox` are reached from `t.prox(·, lam)` all
     satisfy `ok` -/
-def ParamsOk (ok : Nat → ℝ → Prop) : Fn ℝ → ℝ → Prop
+def ParamsOk (ok : Nat → ℝ → Prop) (okQ : Arg ℝ → OpK ℝ → Option (List ℝ) → ℝ → ℝ → Prop) : Fn ℝ → ℝ → Prop
   | .leaf i, lam => ok i lam
-  | .scaled c f, lam => ParamsOk ok f (lam * c)
+  | .scaled c f, lam => ParamsOk ok okQ f (lam * c)
   | .sum _ _, _ => True
   | .snil, _ => True
-  | .scons f r, lam => ParamsOk ok f lam ∧ ParamsOk ok r lam
+  | .scons f r, lam => ParamsOk ok okQ f lam ∧ ParamsOk ok okQ r lam
   | .lossNone _ _ _, _ => True
-  | .loss _ _ f s, lam => ParamsOk ok f (s * lam)
-  | .sqL2 _ _ _ _, _ => True
+  | .loss _ _ f s, lam => ParamsOk ok okQ f (s * lam)
+  | .sqL2 y A w s, lam => okQ y A w s lam
+
+/-- the `SquaredL2Loss` nodes return proximal points of `s·Σ w|y − A x|²` under the condition `okQ`
+    (closed-form branch: `sqL2_diag_sound`; CG branch: contract on the solver, property C14) -/
+def SqSoundOn (E : Env ℝ) (S : LeafSem) (okQ : Arg ℝ → OpK ℝ → Option (List ℝ) → ℝ → ℝ → Prop) : Prop :=
+  ∀ y A w s v lam p, okQ y A w s lam → prox E (.sqL2 y A w s) v lam = .ok p →
+    IsProxA (fun _ => True) (den E S (.sqL2 y A w s)) lam v p
 
 /-- the base functionals' prox maps are proximal maps for the parameters in `ok` -/
 def LeafSoundOn (E : Env ℝ) (S : LeafSem) (ok : Nat → ℝ → Prop) : Prop :=
@@ -37,13 +44,14 @@ def LeafSoundOn (E : Env ℝ) (S : LeafSem) (ok : Nat → ℝ → Prop) : Prop :
 
 /-- **soundness without sign hypotheses**: whatever `prox` returns is a proximal point of the
     denoted functional, provided the leaves are sound at the parameters they receive -/
-theorem tree_sound_on (E : Env ℝ) (S : LeafSem) (ok : Nat → ℝ → Prop) (hS : LeafSoundOn E S ok) :
-    ∀ (t : Fn ℝ) (v p : Arg ℝ) (lam : ℝ), Generic t → ParamsOk ok t lam →
+theorem tree_sound_on (E : Env ℝ) (S : LeafSem) (ok : Nat → ℝ → Prop)
+    (okQ : Arg ℝ → OpK ℝ → Option (List ℝ) → ℝ → ℝ → Prop) (hS : LeafSoundOn E S ok) (hQ : SqSoundOn E S okQ) :
+    ∀ (t : Fn ℝ) (v p : Arg ℝ) (lam : ℝ), ParamsOk ok okQ t lam →
       prox E t v lam = .ok p → IsProxA (dom E S t) (den E S t) lam v p := by
   intro t
   induction t with
   | leaf i =>
-    intro v p lam _ hok hr
+    intro v p lam hok hr
     simp only [prox] at hr
     split at hr
     · simp only [Except.ok.injEq] at hr
@@ -51,15 +59,15 @@ theorem tree_sound_on (E : Env ℝ) (S : LeafSem) (ok : Nat → ℝ → Prop) (h
       exact hS i v lam hok ‹_›
     · cases hr
   | scaled c f ih =>
-    intro v p lam hg hok hr
-    obtain ⟨h1, h2, h3⟩ := ih v p (lam * c) hg hok hr
+    intro v p lam hok hr
+    obtain ⟨h1, h2, h3⟩ := ih v p (lam * c) hok hr
     refine ⟨h1, h2, fun x hx hdx => ?_⟩
     have := h3 x hx hdx
     simp only [den]
     linarith
-  | sum f g _ _ => intro v p lam _ _ hr; simp [prox] at hr
+  | sum f g _ _ => intro v p lam _ hr; simp [prox] at hr
   | snil =>
-    intro v p lam _ _ hr
+    intro v p lam _ hr
     match v with
     | .arr _ => simp [prox] at hr
     | .blk (_ :: _) => simp [prox] at hr
@@ -74,7 +82,7 @@ theorem tree_sound_on (E : Env ℝ) (S : LeafSem) (ok : Nat → ℝ → Prop) (h
         subst hx
         simp [den]
   | scons f r ihf ihr =>
-    intro v p lam hg hok hr
+    intro v p lam hok hr
     match v with
     | .arr _ => simp [prox] at hr
     | .blk [] => simp [prox] at hr
@@ -86,8 +94,8 @@ theorem tree_sound_on (E : Env ℝ) (S : LeafSem) (ok : Nat → ℝ → Prop) (h
         cases hpr : prox E r (.blk bs) lam with
         | error e => simp [hpa, hpr] at hr
         | ok pr =>
-          obtain ⟨a1, a2, a3⟩ := ihf (.arr b) pa lam hg.1 hok.1 hpa
-          obtain ⟨r1, r2, r3⟩ := ihr (.blk bs) pr lam hg.2 hok.2 hpr
+          obtain ⟨a1, a2, a3⟩ := ihf (.arr b) pa lam hok.1 hpa
+          obtain ⟨r1, r2, r3⟩ := ihr (.blk bs) pr lam hok.2 hpr
           cases pa with
           | blk _ => simp [Arg.shapeEq] at a1
           | arr p0 =>
@@ -109,9 +117,9 @@ theorem tree_sound_on (E : Env ℝ) (S : LeafSem) (ok : Nat → ℝ → Prop) (h
                   have i2 := r3 (.blk xs) hx.2 hdx.2
                   simp only [den, Arg.dist2, List.zipWith_cons_cons, List.sum_cons] at i1 i2 ⊢
                   linarith
-  | lossNone y A s => intro v p lam _ _ hr; simp [prox] at hr
+  | lossNone y A s => intro v p lam _ hr; simp [prox] at hr
   | loss y A f s ih =>
-    intro v p lam hg hok hr
+    intro v p lam hok hr
     simp only [prox] at hr
     split at hr
     · rename_i hguard
@@ -129,7 +137,7 @@ theorem tree_sound_on (E : Env ℝ) (S : LeafSem) (ok : Nat → ℝ → Prop) (h
             simp only [hd, hq] at hr
             obtain ⟨hvy, rfl⟩ := Arg.zip_eq_ok hd
             obtain ⟨hqy, rfl⟩ := Arg.zip_eq_ok hr
-            obtain ⟨q1, q2, q3⟩ := ih _ q (s * lam) hg hok hq
+            obtain ⟨q1, q2, q3⟩ := ih _ q (s * lam) hok hq
             have hdv : (Arg.zipT (· - ·) v y).shapeEq v := Arg.zipT_shapeEq hvy
             have hpq : (Arg.zipT (· + ·) q y).shapeEq q := Arg.zipT_shapeEq hqy
             have hpv : (Arg.zipT (· + ·) q y).shapeEq v := Arg.shapeEq_trans hpq (Arg.shapeEq_trans q1 hdv)
@@ -146,12 +154,14 @@ theorem tree_sound_on (E : Env ℝ) (S : LeafSem) (ok : Nat → ℝ → Prop) (h
               rw [e2] at i1
               linarith
     · cases hr
-  | sqL2 y A w s => intro v p lam hg; exact hg.elim
+  | sqL2 y A w s =>
+    intro v p lam hok hr
+    simpa [dom] using hQ y A w s v lam p hok hr
 
 /-- with the flag set, positive `Loss` scales and `lam > 0` every base prox is reached with a
     positive parameter (so `tree_sound` is the instance `ok = (0 < ·)` of `tree_sound_on`) -/
 theorem paramsOk_pos (E : Env ℝ) : ∀ (t : Fn ℝ) (lam : ℝ), 0 < lam → hasProx E t = true → LossScalesPos t →
-    ParamsOk (fun _ l => 0 < l) t lam := by
+    ParamsOk (fun _ l => 0 < l) (fun _ _ _ s l => 0 < s ∧ 0 < l) t lam := by
   intro t
   induction t with
   | leaf i => intro lam hl _ _; exact hl
@@ -170,7 +180,7 @@ theorem paramsOk_pos (E : Env ℝ) : ∀ (t : Fn ℝ) (lam : ℝ), 0 < lam → h
     intro lam hl h hls
     simp only [hasProx, Bool.and_eq_true] at h
     exact ih (s * lam) (mul_pos hls.1 hl) h.2 hls.2
-  | sqL2 y A w s => intro _ _ _ _; trivial
+  | sqL2 y A w s => intro lam hl _ hls; exact ⟨hls, hl⟩
 
 /-- the flag rule **with the proposed repair** `fixes/loss-nonpositive-scale.patch`: as `hasProx`, and in
     addition a `Loss` (generic or `SquaredL2Loss`) advertises its prox only while its scale is positive -/
@@ -206,7 +216,7 @@ theorem hasProx_of_hasProxR (E : Env ℝ) : ∀ t : Fn ℝ, hasProxR E t = true 
 
 /-- under the repaired rule a set flag alone guarantees positive parameters at the leaves -/
 theorem paramsOk_of_hasProxR (E : Env ℝ) : ∀ (t : Fn ℝ) (lam : ℝ), 0 < lam → hasProxR E t = true →
-    ParamsOk (fun _ l => 0 < l) t lam := by
+    ParamsOk (fun _ l => 0 < l) (fun _ _ _ s l => 0 < s ∧ 0 < l) t lam := by
   intro t
   induction t with
   | leaf i => intro lam hl _; exact hl
@@ -225,7 +235,173 @@ theorem paramsOk_of_hasProxR (E : Env ℝ) : ∀ (t : Fn ℝ) (lam : ℝ), 0 < l
     intro lam hl h
     simp only [hasProxR, Bool.and_eq_true, decide_eq_true_eq] at h
     exact ih (s * lam) (mul_pos h.2 hl) h.1.2
-  | sqL2 y A w s => intro _ _ _; trivial
+  | sqL2 y A w s =>
+    intro lam hl h
+    simp only [hasProxR, Bool.and_eq_true, decide_eq_true_eq] at h
+    exact ⟨h.2, hl⟩
+
+/-! ### `SquaredL2Loss` nodes with a Diagonal / Identity forward operator (closed-form branch), real data -/
+
+theorem zipWith_ones_mul : ∀ (x : List ℝ) (n : Nat), x.length ≤ n → List.zipWith (· * ·) (onesL n) x = x
+  | [], n, _ => by simp
+  | a :: x, 0, h => by simp at h
+  | a :: x, n + 1, h => by
+    simp only [List.length_cons, Nat.add_le_add_iff_right] at h
+    have := zipWith_ones_mul x n h
+    simp only [onesL] at this ⊢
+    simp [List.replicate_succ, this]
+
+theorem onesL_length (n : Nat) : (onesL n : List ℝ).length = n := by simp [onesL]
+
+theorem onesL_nonneg (n : Nat) : ∀ a ∈ (onesL n : List ℝ), 0 ≤ a := by
+  intro a ha
+  simp only [onesL, List.mem_replicate] at ha
+  rw [ha.2]; exact zero_le_one
+
+/-- data conditions of the closed-form branch as proved here: real data, plain measurement, `A` the
+    Identity or a Diagonal, weights (if given) non-negative and of the measurement's length,
+    positive scale and prox parameter -/
+def SqDiagOk (E : Env ℝ) (y : Arg ℝ) (A : OpK ℝ) (w : Option (List ℝ)) (s lam : ℝ) : Prop :=
+  E.cplx = false ∧ 0 < s ∧ 0 < lam ∧
+  (∃ yy, y = .arr yy ∧ ∀ wl, w = some wl → wl.length = yy.length ∧ ∀ a ∈ wl, 0 ≤ a) ∧
+  (A = .ident ∨ ∃ d, A = .diag d)
+
+/-- closed-form branch with weights `wl`, diagonal `a`: the returned array is a proximal point of
+    `x ↦ s·Σ w_i (y_i − a_i x_i)²` in the sense of `IsProxA` -/
+theorem sqL2_diag_isProxA {s lam : ℝ} (hs : 0 < s) (hl : 0 < lam) (wl a yy vv : List ℝ)
+    (hw : ∀ c ∈ wl, 0 ≤ c) (h1 : wl.length = vv.length) (h2 : a.length = vv.length) (h3 : yy.length = vv.length) :
+    IsProxA (fun _ => True)
+      (fun x => s * wsum (some wl) (sqmags false (List.zipWith (· - ·) yy (List.zipWith (· * ·) a x.flat))))
+      lam (.arr vv) (.arr (sqL2DiagProx false s lam (some wl) a yy vv)) := by
+  have hc : (0 : ℝ) ≤ (1 + 1) * s * lam := by positivity
+  have hlen : (sqL2DiagProx false s lam (some wl) a yy vv).length = vv.length := by
+    simp [sqL2DiagProx, edivR, emul, econj, rmulL, sqmags, h1, h2, h3]
+  refine ⟨by simpa [Arg.shapeEq] using hlen, trivial, fun x hx _ => ?_⟩
+  cases x with
+  | blk _ => simp [Arg.shapeEq] at hx
+  | arr x =>
+    simp only [Arg.shapeEq] at hx
+    have := sqL2DiagProx_minimises_real hc wl a yy vv x hw h1 h2 h3 hx
+    simp only [diagObj] at this
+    simp only [Arg.flat, Arg.dist2, sq2, wsum]
+    linarith
+
+theorem sqL2DiagProx_none (s lam : ℝ) (a y v : List ℝ) :
+    sqL2DiagProx false s lam none a y v = sqL2DiagProx false s lam (some (onesL v.length)) a y v := by
+  simp [sqL2DiagProx, nEntries]
+
+theorem wsum_none_eq (L : List ℝ) (n : Nat) (h : L.length ≤ n) : wsum none L = wsum (some (onesL n)) L := by
+  simp only [wsum]
+  rw [zipWith_ones_mul L n h]
+
+theorem isProxA_congr {D : Arg ℝ → Prop} {f g : Arg ℝ → ℝ} {lam : ℝ} {v p : Arg ℝ}
+    (hfg : ∀ x, x.shapeEq v → f x = g x) (h : IsProxA D g lam v p) : IsProxA D f lam v p := by
+  obtain ⟨h1, h2, h3⟩ := h
+  refine ⟨h1, h2, fun x hx hdx => ?_⟩
+  rw [hfg p h1, hfg x hx]
+  exact h3 x hx hdx
+
+theorem sqmags_real_length (L : List ℝ) : (sqmags false L).length = L.length := by simp [sqmags]
+
+/-- **`SquaredL2Loss.prox`, Diagonal branch, as a node of the calculus**: under `SqDiagOk` the value
+    returned by the model is a proximal point of the functional the node denotes (`den`) -/
+theorem sqL2_diag_sound (E : Env ℝ) (S : LeafSem) : SqSoundOn E S (SqDiagOk E) := by
+  intro y A w s v lam p hok hr
+  obtain ⟨hE, hs, hl, ⟨yy, rfl, hw⟩, hA⟩ := hok
+  -- normalise the weights to an explicit list `wl`
+  obtain ⟨wl, hF1, hF2, hwlen, hwpos⟩ : ∃ wl : List ℝ,
+      (∀ a v' : List ℝ, v'.length = yy.length →
+        sqL2DiagProx false s lam w a yy v' = sqL2DiagProx false s lam (some wl) a yy v') ∧
+      (∀ L : List ℝ, L.length ≤ yy.length → wsum w L = wsum (some wl) L) ∧
+      wl.length = yy.length ∧ ∀ c ∈ wl, 0 ≤ c := by
+    cases w with
+    | none =>
+      exact ⟨onesL yy.length, fun a v' h => by rw [sqL2DiagProx_none, h], fun L hL => wsum_none_eq L _ hL,
+        onesL_length _, onesL_nonneg _⟩
+    | some wl => exact ⟨wl, fun _ _ _ => rfl, fun _ _ => rfl, (hw wl rfl).1, (hw wl rfl).2⟩
+  cases v with
+  | blk vs => rcases hA with rfl | ⟨d, rfl⟩ <;> simp [prox] at hr
+  | arr vv =>
+    rcases hA with rfl | ⟨d, rfl⟩
+    · -- Identity: the diagonal is the all-ones array
+      simp only [prox, diagOf, hE, nEntries, Bool.false_eq_true, if_false] at hr
+      split at hr
+      · rename_i hlen
+        obtain ⟨_, hyv⟩ := hlen
+        simp only [Except.ok.injEq] at hr
+        subst hr
+        rw [hF1 _ vv hyv.symm]
+        have base := sqL2_diag_isProxA hs hl wl (onesL vv.length) yy vv hwpos (hwlen.trans hyv) (onesL_length _) hyv
+        refine isProxA_congr (fun x hx => ?_) base
+        cases x with
+        | blk _ => simp [Arg.shapeEq] at hx
+        | arr x =>
+          simp only [Arg.shapeEq] at hx
+          simp only [den, OpK.apply, Arg.zipT, Arg.flat, hE]
+          rw [zipWith_ones_mul x vv.length (le_of_eq hx)]
+          rw [hF2 _ (by rw [sqmags_real_length]; simp)]
+      · cases hr
+    · -- Diagonal d
+      simp only [prox, diagOf, hE] at hr
+      split at hr
+      · rename_i hlen
+        obtain ⟨hdv, hyv⟩ := hlen
+        simp only [Except.ok.injEq] at hr
+        subst hr
+        rw [hF1 _ vv hyv.symm]
+        have base := sqL2_diag_isProxA hs hl wl d yy vv hwpos (hwlen.trans hyv) hdv hyv
+        refine isProxA_congr (fun x hx => ?_) base
+        cases x with
+        | blk _ => simp [Arg.shapeEq] at hx
+        | arr x =>
+          simp only [Arg.shapeEq] at hx
+          have hem : (List.zipWith (fun x1 x2 : ℝ => x1 * x2) d x).length = x.length := by simp [hdv, hx]
+          simp only [den, OpK.apply, hE, emul, Bool.false_eq_true, if_false]
+          rw [if_pos hem]
+          simp only [Arg.zipT, Arg.flat]
+          rw [hF2 _ (by rw [sqmags_real_length]; simp)]
+      · cases hr
+
+/-- every `SquaredL2Loss` node of the tree is in the scope of `sqL2_diag_sound`: real data, plain
+    measurement, Identity / Diagonal forward operator, weights `≥ 0` of the measurement's length
+    (vacuous for trees without `SquaredL2Loss` nodes, i.e. implied by `Generic`) -/
+def SqNodesDiag (E : Env ℝ) : Fn ℝ → Prop
+  | .leaf _ => True
+  | .scaled _ f => SqNodesDiag E f
+  | .sum f g => SqNodesDiag E f ∧ SqNodesDiag E g
+  | .snil => True
+  | .scons f r => SqNodesDiag E f ∧ SqNodesDiag E r
+  | .lossNone _ _ _ => True
+  | .loss _ _ f _ => SqNodesDiag E f
+  | .sqL2 y A w _ => E.cplx = false ∧
+      (∃ yy, y = .arr yy ∧ ∀ wl, w = some wl → wl.length = yy.length ∧ ∀ a ∈ wl, 0 ≤ a) ∧
+      (A = .ident ∨ ∃ d, A = .diag d)
+
+theorem sqNodesDiag_of_generic (E : Env ℝ) : ∀ t : Fn ℝ, Generic t → SqNodesDiag E t := by
+  intro t
+  induction t with
+  | leaf i => intro _; trivial
+  | scaled c f ih => exact ih
+  | sum f g ihf ihg => intro h; exact ⟨ihf h.1, ihg h.2⟩
+  | snil => intro _; trivial
+  | scons f r ihf ihr => intro h; exact ⟨ihf h.1, ihr h.2⟩
+  | lossNone y A s => intro _; trivial
+  | loss y A f s ih => exact ih
+  | sqL2 y A w s => intro h; exact h.elim
+
+theorem paramsOk_diag (E : Env ℝ) : ∀ (t : Fn ℝ) (lam : ℝ), SqNodesDiag E t →
+    ParamsOk (fun _ l => 0 < l) (fun _ _ _ s l => 0 < s ∧ 0 < l) t lam →
+    ParamsOk (fun _ l => 0 < l) (SqDiagOk E) t lam := by
+  intro t
+  induction t with
+  | leaf i => intro lam _ h; exact h
+  | scaled c f ih => intro lam hd h; exact ih (lam * c) hd h
+  | sum f g _ _ => intro _ _ _; trivial
+  | snil => intro _ _ _; trivial
+  | scons f r ihf ihr => intro lam hd h; exact ⟨ihf lam hd.1 h.1, ihr lam hd.2 h.2⟩
+  | lossNone y A s => intro _ _ _; trivial
+  | loss y A f s ih => intro lam hd h; exact ih (s * lam) hd h
+  | sqL2 y A w s => intro lam hd h; exact ⟨hd.1, h.1, h.2, hd.2.1, hd.2.2⟩
 
 /-- `Functional.conj_prox` as modelled: `v − lam · prox(v / lam, 1 / lam)` -/
 theorem conjProx_eq {α : Type} [Add α] [Sub α] [Mul α] [Div α] [Neg α] [Zero α] [One α] [LT α] [DecidableLT α]
@@ -271,5 +447,35 @@ theorem loss_nonpos_counterexample :
     have := h (.arr [1]) (by simp [Arg.shapeEq]) trivial
     simp [l1, mags, absR, Arg.flat, Arg.dist2, sq2] at this
     norm_num at this
+
+end Scico.ProxCalc
+
+namespace Scico.ProxCalc
+open Scico Scico.FuncEval
+
+/-- the block-wise difference of two block arrays of the same shape, flattened, is the difference of the
+    flattened arrays — `_flatten(reference - comparison)` of `scico.metric` (after 200a606) and
+    `y − A(x)` of the losses on block arrays -/
+theorem flat_zipT_sub {r c : Arg ℝ} (h : r.shapeEq c) :
+    (Arg.zipT (· - ·) r c).flat = List.zipWith (· - ·) r.flat c.flat := by
+  cases r with
+  | arr a => cases c with
+    | arr b => rfl
+    | blk _ => simp [Arg.shapeEq] at h
+  | blk as =>
+    cases c with
+    | arr _ => simp [Arg.shapeEq] at h
+    | blk bs =>
+      simp only [Arg.shapeEq] at h
+      simp only [Arg.zipT, Arg.flat]
+      induction as generalizing bs with
+      | nil => cases bs <;> simp_all
+      | cons a as ih =>
+        cases bs with
+        | nil => simp at h
+        | cons b bs =>
+          simp only [List.map_cons, List.cons.injEq] at h
+          simp only [List.zipWith_cons_cons, List.flatten_cons]
+          rw [ih bs h.2, List.zipWith_append h.1]
 
 end Scico.ProxCalc
